@@ -9,7 +9,7 @@ CONSTANTS
   Weights <- W2
   PatternW = TRUE
   TdFlags = {FALSE}
-  InVecs <- VecsOne
+  InVecs <- VecsQ
   OrderKinds = {"IBOH"}
   ActSchemes <- SchemesQuick
   LinkCaps = {3}
@@ -17,7 +17,7 @@ CONSTANTS
   Canonical = TRUE
   AcyclicOnly = TRUE
   Tight = TRUE
-  ModuleActs = {"mul", "min"}
+  ModuleActs = {"mul"}
   ModuleActs2 = {"max"}
   MaxMods = 2
   InsSizes = {2}
@@ -28,7 +28,7 @@ CONSTANTS
   Act0Ks = {}
   UseRec = FALSE
   LoadFirst = TRUE
-  MaxHist = 4
+  MaxHist = 3
   MaxSuf = 2
   Limit = 5000
 INVARIANTS Settles SolversAgree FlushRestores SuffixEqual CountsAgree DepthTwoWays Refusals InScope
